@@ -8,6 +8,18 @@ list or TransformKey object) with position-only, position+rotation and matrix ar
 or keyword.  Every observable result (`.matrix`, `.position`, rotation as a rotation matrix, labels,
 error kind) is compared with the Lean model `PEval.Transform`.
 
+Two devices run through ALL streams:
+* NUMERIC TYPE VARIANTS — about 40% of the matrices, probes and query arguments hand their numbers over in another numeric type
+  than Python float: int tuples / lists, numpy int64 / int32 / float32 scalars and arrays, lists mixing ints and floats
+  (translations are then drawn integral; rotations mostly stay arbitrary, i.e. an integer translation next to a fractional
+  rotation; sometimes integer unit quaternions / integral rotation matrices so that the rotation changes type too; `from_matrix`
+  with an int / float32 4x4 array where exact).  The mathematical value - hence the model request and the oracle's expectation - is the same.
+* EVERY ACCESS PATH OF THE REGISTRY — wherever a registry is asked through `transform`, the same key (same spelling, same
+  form) is also handed to every other key-taking method, enumerated from `dir(TransformDict)`: `get`, `[]`, `in` (if defined),
+  `load_key` with their rules (registered matrix / None / KeyError / bool, after the same normalisation of the names; Lean
+  `dictGet` / `dictGetItem` / `dictContains`), and any method the harness does not know, tried generically with the key as only
+  argument on a deep copy: every spelling must behave like `TransformKey(member, member)`.
+
 Two further streams state that the objects answer from what they hold NOW:
 * `regseq` — OPERATION SEQUENCES on one registry: `reg[key] = matrix` (new key, overwrite, overwrite of / registration of
   the reverse of a key that was answered through the inverse), `del reg[key]`, `copy.deepcopy(reg)` (the sequence goes
@@ -60,6 +72,10 @@ RULE = (
     "registries: 0..4 matrices (duplicates, reverse pairs, X-to-X "
     "entries; list/tuple/single/None/__setitem__ construction) and <=6 queries each over all key spellings and forms and 7 "
     "argument kinds; plus every frame X-to-X in all 16 spelling pairs and every ordered pair of frames direct/inverse/missing. "
+    "numeric type variants: 40% of matrices / probes / arguments carry their numbers as int, numpy int64/int32/float32 (scalars in tuples "
+    "and lists, dtype of arrays, from_matrix arrays) or int-float mixtures, integral translations with arbitrary rotations; access paths: "
+    "every registry query key (registry stream, every probe of every sequence step, one key with a non-frame name per sequence) also goes "
+    "to get / [] / in / load_key and to every unknown key-taking method found by dir(TransformDict). "
     "non-trivial = at least one matrix that is not the identity motion, or a registry query; distinct = distinct case JSON"
 )
 THEOREMS = [
@@ -75,6 +91,8 @@ THEOREMS = [
         "mk_spelling", "lookup_identity", "lookup_missing_keyerror", "key_spelling_irrelevant", "key_unknown_name", "registry_roundtrip",
         "lookup_set", "lookup_erase", "dictDel_spec", "query_after_set_direct", "query_after_set_reverse", "query_after_set_other",
         "query_after_del", "query_after_del_falls_back",
+        "get_spelling_irrelevant", "getitem_spelling_irrelevant", "contains_spelling_irrelevant", "getitem_eq_get", "contains_eq_get",
+        "get_unknown_name", "transform_of_get_direct", "transform_of_get_reverse", "get_after_set", "get_after_del",
     ]
 ]
 TRUSTED = [
@@ -88,6 +106,10 @@ ASSUMPTIONS = [
     "rotations are compared as rotation matrices, so q and -q agree (the sign returned by Quaternion(matrix=) is unspecified)",
     "float results are compared with exact rationals within 1e-9 (relative/absolute); translations are dyadic with |t| <= 1024",
     "keys whose components are neither str nor FrameID (None, int) are not generated",
+    "numeric type variants are applied only where every number is exactly representable in the type (integers for the int types, "
+    "float32-exact dyadics for float32); complex, Decimal, Fraction, bool and string numbers are not generated",
+    "for a key with a name that is no frame the other access paths are only required not to answer positively (no matrix, not True); "
+    "that they raise ValueError like transform is compared model-vs-code, not judged by the oracle",
     "reg[key] = m is generated only with a key naming m's own frames (any spelling), as the constructor registers it",
     "only numpy arrays handed to the constructor / from_matrix are changed in place (not the internals of a Quaternion object, "
     "not the attributes of the transform); the attributes .position/.rotation of the transform itself are not compared afterwards",
@@ -97,6 +119,12 @@ SPELLINGS = ("member", "lower", "upper", "mixed")
 INPUTS = ("tuple", "list", "ndarray", "quatobj", "mat3", "mat4", "from_matrix")
 ROT_FORMS = ("tuple", "quatobj", "mat3")
 MALFORMED = ("noargs", "toomany", "unknownkw", "posandmat")
+# NUMERIC TYPE VARIANTS: the same numbers handed over in another numeric type (the mathematical value, and with it the
+# model request and the oracle's expectation, is unchanged).  A variant applies where every number is exactly
+# representable in the type; otherwise the numbers stay Python floats.
+NUMS = ("float", "int", "i64", "i32", "f32", "mixed")
+INT_NUMS = ("int", "i64", "i32")
+POS_FORMS = ("tuple", "list", "ndarray")
 
 
 # ----------------------------------------------------------------------------- rational rotations
@@ -166,11 +194,82 @@ def _rand_quat(rng):
     return [core.q(c) for c in q]
 
 
-def _rand_pos(rng):
+def _rand_num(rng, p=0.4):
+    return rng.choice(NUMS[1:]) if rng.random() < p else "float"
+
+
+def _rand_pos(rng, num="float"):
+    """a dyadic translation; for the integer types an integral one, for `mixed` some components integral"""
     if rng.random() < 0.1:
         return [0.0, 0.0, 0.0]
     hi = rng.choice([4, 64, 64, 1024])
+    if num in INT_NUMS:
+        return [float(rng.randint(-hi, hi)) for _ in range(3)]
+    if num == "mixed":
+        return [float(rng.randint(-hi, hi)) if rng.random() < 0.6 else core.dyadic(rng, -hi, hi, 8) for _ in range(3)]
     return [core.dyadic(rng, -hi, hi, 8) for _ in range(3)]
+
+
+_UNIT_INT_QUATS = [(1, 0, 0, 0), (0, 1, 0, 0), (0, 0, 1, 0), (0, 0, 0, 1)]
+_HALF_QUATS = [(a, b, c, d) for a in (1, -1) for b in (1, -1) for c in (1, -1) for d in (1, -1)]
+
+
+def _rand_quat_num(rng, num):
+    """mostly any rotation (its numbers stay floats next to, say, an integer translation); sometimes one whose numbers are
+    representable in the requested type too: integer unit quaternions, (+-1 +-1 +-1 +-1)/2 (integral rotation matrix)"""
+    if num != "float" and rng.random() < 0.25:
+        if rng.random() < 0.6:
+            q = rng.choice(_UNIT_INT_QUATS)
+            q = tuple(-c for c in q) if rng.random() < 0.5 else q
+            return [core.q(Fraction(c)) for c in q]
+        return [core.q(Fraction(c, 2)) for c in rng.choice(_HALF_QUATS)]
+    return _rand_quat(rng)
+
+
+def _num_scalars(vals, num):
+    """the numbers `vals` (floats) as scalars of the numeric type `num`; None when one of them is not exactly representable"""
+    import numpy as np
+
+    vals = [float(v) for v in vals]
+    if num == "float":
+        return vals
+    if num == "mixed":
+        return [int(v) if v == int(v) else v for v in vals]
+    if num in INT_NUMS:
+        if any(v != int(v) or abs(v) >= 2 ** 31 for v in vals):
+            return None
+        ty = {"int": int, "i64": np.int64, "i32": np.int32}[num]
+        return [ty(int(v)) for v in vals]
+    if num == "f32":
+        if any(float(np.float32(v)) != v for v in vals):
+            return None
+        return [np.float32(v) for v in vals]
+    raise ValueError(num)
+
+
+def _num_array(a, num):
+    """the float array `a` with the dtype of `num` (the array itself when not exactly representable)"""
+    import numpy as np
+
+    dt = {"int": np.int64, "i64": np.int64, "i32": np.int32, "f32": np.float32}.get(num)
+    if dt is None:
+        return a
+    b = a.astype(dt)
+    return b if np.array_equal(b.astype(float), a) else a
+
+
+def _seq_arg(vals, form, num="float"):
+    """three or four numbers as tuple / list / ndarray in the numeric type `num`"""
+    import numpy as np
+
+    sc = _num_scalars(vals, num)
+    if sc is None:
+        sc = [float(v) for v in vals]
+    if form == "list":
+        return list(sc)
+    if form == "ndarray":
+        return _num_array(np.array([float(v) for v in vals]), num)
+    return tuple(sc)
 
 
 def _frames():
@@ -191,9 +290,11 @@ def _rand_sp(rng, bad=0.0):
 
 
 def _rand_mat(rng, src, dst, bad=0.0):
+    num = _rand_num(rng)
     return {
-        "pos": _rand_pos(rng),
-        "q": _rand_quat(rng),
+        "pos": _rand_pos(rng, num),
+        "q": _rand_quat_num(rng, num),
+        "num": num,
         "input": rng.choice(INPUTS),
         "src": src,
         "src_sp": _rand_sp(rng, bad),
@@ -203,9 +304,12 @@ def _rand_mat(rng, src, dst, bad=0.0):
 
 
 def _rand_probe(rng):
+    num = _rand_num(rng)
     return {
-        "pos": _rand_pos(rng),
-        "q": _rand_quat(rng),
+        "pos": _rand_pos(rng, num),
+        "q": _rand_quat_num(rng, num),
+        "num": num,
+        "pform": rng.choice(POS_FORMS),
         "rot_form": rng.choice(ROT_FORMS),
         "call": rng.choice(["args", "kw"]),
     }
@@ -248,26 +352,22 @@ def _spec_matrix(spec):
     return m
 
 
-def _rot_arg(qs, form):
+def _rot_arg(qs, form, num="float"):
     import numpy as np
     from pyquaternion import Quaternion
 
     q = [_F(s) for s in qs]
     qf = tuple(float(c) for c in q)
-    if form == "tuple":
-        return qf
-    if form == "list":
-        return list(qf)
-    if form == "ndarray":
-        return np.array(qf)
+    if form in ("tuple", "list", "ndarray"):
+        return _seq_arg(qf, form, num)
     if form == "quatobj":
-        return Quaternion(qf)
+        return Quaternion(_seq_arg(qf, "tuple", num))
     R = np.array([[float(c) for c in row] for row in _rotmat_exact(q)])
     if form == "mat3":
-        return R
+        return _num_array(R, num)
     m = np.eye(4)
     m[:3, :3] = R
-    return m  # mat4
+    return _num_array(m, num)  # mat4
 
 
 def _build(spec):
@@ -277,10 +377,11 @@ def _build(spec):
     src = _frame_arg(spec["src"], spec["src_sp"])
     dst = _frame_arg(spec["dst"], spec["dst_sp"])
     inp = spec["input"]
+    num = spec.get("num", "float")
     if inp == "from_matrix":
-        return HomogeneousMatrix.from_matrix(_spec_matrix(spec), src, dst)
-    pos = tuple(spec["pos"]) if inp in ("tuple", "quatobj") else (list(spec["pos"]) if inp == "list" else np.array(spec["pos"]))
-    return HomogeneousMatrix(pos, _rot_arg(spec["q"], inp), src, dst)
+        return HomogeneousMatrix.from_matrix(_num_array(_spec_matrix(spec), num), src, dst)
+    pos = _seq_arg(spec["pos"], "tuple" if inp in ("tuple", "quatobj") else "list" if inp == "list" else "ndarray", num)
+    return HomogeneousMatrix(pos, _rot_arg(spec["q"], inp, num), src, dst)
 
 
 def _fname(f):
@@ -354,12 +455,20 @@ def _pose_matrix(pos, qs):
     return _spec_matrix({"pos": pos, "q": qs})
 
 
+def _probe_args(probe):
+    """position and rotation of a probe / query argument as handed to the real code"""
+    num = probe.get("num", "float")
+    return _seq_arg(probe["pos"], probe.get("pform", "tuple"), num), _rot_arg(probe["q"], probe["rot_form"], num)
+
+
 def _info(A, probe):
     """everything observed of one real matrix (plus the oracle's raw material)"""
-    p = tuple(probe["pos"])
-    r = _rot_arg(probe["q"], probe["rot_form"])
+    p, r = _probe_args(probe)
     call = probe["call"]
-    I = A.inv()
+    try:
+        I = A.inv()
+    except Exception as e:  # noqa
+        return {"m": _hm(A), "inv_err": type(e).__name__}
     d = {"m": _hm(A), "inv": _hm(I)}
     d["tf_pos"] = _try(lambda: _call_transform(A, None, "pos", p, None, None, call))
     d["tf_pose"] = _try(lambda: _call_transform(A, None, "pose", p, r, None, call))
@@ -423,6 +532,19 @@ def corpus():
     cs.append({"kind": "chain", "mats": [mat([0.0, 0.0, 0.0], half, "MAP", "MAP", "mat4"), mat([1.0, 0.0, 0.0], ["0", "0", "0", "-1"], "MAP", "BASE_LINK", "from_matrix")],
                "via": ["tf_kw"], "probe": probe})
     cs.append({"kind": "chain", "mats": [mat([0.0, 0.0, 0.0], one, "MAP", "BASE_LINK", "tuple", "bad")], "via": [], "probe": probe})
+    # numeric type variants: an ego pose standing at integer coordinates with a tilted rotation, handed over as int tuple, int list,
+    # numpy int / float32 array, 4x4 int array (quarter turn), probed with int / float32 / mixed positions
+    quarter = ["1/2", "1/2", "1/2", "1/2"]
+    for inp, num, q in (("tuple", "int", q5), ("list", "int", q7n), ("ndarray", "i64", q5), ("ndarray", "i32", half), ("ndarray", "f32", q7n),
+                        ("quatobj", "mixed", q5), ("from_matrix", "i64", quarter), ("mat3", "i32", quarter), ("mat4", "f32", quarter)):
+        for pnum, pform in (("int", "tuple"), ("f32", "ndarray"), ("mixed", "list")):
+            cs.append({"kind": "chain", "mats": [dict(mat([12.0, -7.0, 0.0], q, "BASE_LINK", "MAP", inp), num=num),
+                                                 dict(mat([1.0, 2.0, 3.0], q7n, "MAP", "LIDAR_TOP", "tuple"), num=pnum)],
+                       "via": ["dot"], "probe": dict(probe, pos=[1.0, 0.0, -2.0], num=pnum, pform=pform)})
+    cs.append({"kind": "registry", "init": "single", "mats": [dict(ego2map, pos=[12.0, -7.0, 0.0], num="int")], "queries": [
+        qry("BASE_LINK", "upper", "MAP", "upper", dict(ppos, num="int", pform="list")),
+        qry("MAP", "upper", "BASE_LINK", "member", dict(ppose, num="i32", pform="ndarray"), "list"),
+        qry("MAP", "bad", "BASE_LINK", "member", ppos)]})
     # a registry answers from its CURRENT contents: the ego pose of the next frame is registered under the same key
     # after map->base_link was asked (answered through the inverse), then the key is deleted; the same on a deep copy
     ego2map2 = mat([25.0, 3.0, 0.75], q7n, "BASE_LINK", "MAP", "quatobj", "lower", "lower")
@@ -485,10 +607,12 @@ def _gen_chain(rng, frames):
 
 def _rand_arg(rng, frames, dst_name):
     r = rng.random()
+    num = _rand_num(rng)
     if r < 0.35:
-        return {"kind": "pos", "pos": _rand_pos(rng)}
+        return {"kind": "pos", "pos": _rand_pos(rng, num), "num": num, "pform": rng.choice(POS_FORMS)}
     if r < 0.7:
-        return {"kind": "pose", "pos": _rand_pos(rng), "q": _rand_quat(rng), "rot_form": rng.choice(ROT_FORMS)}
+        return {"kind": "pose", "pos": _rand_pos(rng, num), "q": _rand_quat_num(rng, num), "num": num, "pform": rng.choice(POS_FORMS),
+                "rot_form": rng.choice(ROT_FORMS)}
     if r < 0.93:
         src = dst_name if rng.random() < 0.75 else rng.choice(frames)
         return {"kind": "mat", **_rand_mat(rng, src, rng.choice(frames))}
@@ -530,8 +654,14 @@ ALIAS_ROT = ("tuple", "quatobj", "quat_array", "mat3", "mat4")  # rotation argum
 def _rand_probe_keys(rng, pool, outside):
     """every ordered pair of the pool (X-to-X included) and two keys nothing is registered for"""
     pairs = [(a, b) for a in pool for b in pool] + [(pool[0], outside), (outside, pool[-1])]
-    return [{"src": a, "src_sp": rng.choice(SPELLINGS), "dst": b, "dst_sp": rng.choice(SPELLINGS),
-             "form": rng.choice(["tuple", "list", "key"]), "call": rng.choice(["args", "kw"])} for a, b in pairs]
+    ks = [{"src": a, "src_sp": rng.choice(SPELLINGS), "dst": b, "dst_sp": rng.choice(SPELLINGS),
+           "form": rng.choice(["tuple", "list", "key"]), "call": rng.choice(["args", "kw"])} for a, b in pairs]
+    # and a key with a name that is no frame (pair or list: a TransformKey cannot be made of it)
+    a, b = rng.choice(pairs)
+    bad = rng.randrange(2)
+    ks.append({"src": a, "src_sp": "bad" if bad == 0 else rng.choice(SPELLINGS), "dst": b, "dst_sp": "bad" if bad == 1 else rng.choice(SPELLINGS),
+               "form": rng.choice(["tuple", "list"]), "call": rng.choice(["args", "kw"])})
+    return ks
 
 
 def _gen_regseq(rng, frames, force=None):
@@ -595,10 +725,12 @@ def _gen_regseq(rng, frames, force=None):
             ops.append({"op": "query", "src": s, "src_sp": _rand_sp(rng, 0.03), "dst": d, "dst_sp": _rand_sp(rng, 0.03),
                         "form": rng.choice(["tuple", "list", "key"]), "call": rng.choice(["args", "kw"]),
                         "arg": _rand_arg(rng, frames, d)})
+    num = _rand_num(rng)
     if rng.random() < 0.7:
-        parg = {"kind": "pose", "pos": _rand_pos(rng), "q": _rand_quat(rng), "rot_form": rng.choice(ROT_FORMS)}
+        parg = {"kind": "pose", "pos": _rand_pos(rng, num), "q": _rand_quat_num(rng, num), "num": num, "pform": rng.choice(POS_FORMS),
+                "rot_form": rng.choice(ROT_FORMS)}
     else:
-        parg = {"kind": "pos", "pos": _rand_pos(rng)}
+        parg = {"kind": "pos", "pos": _rand_pos(rng, num), "num": num, "pform": rng.choice(POS_FORMS)}
     return {"kind": "regseq", "init": init, "mats": mats, "ops": ops, "probes": _rand_probe_keys(rng, pool, outside), "parg": parg}
 
 
@@ -615,13 +747,13 @@ def _gen_alias(rng, frames):
     spec = _rand_mat(rng, x, y)
     spec["input"] = "ndarray"
     while True:
-        mut = {"what": what, "how": mhow, "pos": [0.0, 0.0, 0.0] if mhow == "zero" else _rand_pos(rng), "q": _rand_quat(rng)}
+        mut = {"what": what, "how": mhow, "pos": [0.0, 0.0, 0.0] if mhow == "zero" else _rand_pos(rng, spec["num"]), "q": _rand_quat(rng)}
         moved = what in ("pos", "both") and mut["pos"] != spec["pos"]
         turned = what in ("rot", "both") and [abs(_F(c)) for c in mut["q"]] != [abs(_F(c)) for c in spec["q"]]
         if moved or turned:
             break
         if mhow == "zero":
-            spec["pos"] = [core.dyadic(rng, 1, 64, 8) for _ in range(3)]
+            spec["pos"] = [float(rng.randint(1, 64)) if spec["num"] in INT_NUMS else core.dyadic(rng, 1, 64, 8) for _ in range(3)]
     return {"kind": "alias", "mats": [], "mat": spec, "build": build, "mut": mut, "post": dict(_rand_mat(rng, y, z), input="tuple"),
             "pre": dict(_rand_mat(rng, w, x), input="tuple"), "probe": _rand_probe(rng)}
 
@@ -717,8 +849,9 @@ def _mk_key(src, ssp, dst, dsp, form):
 def _answer(td, qd, mats):
     """td.transform(key, ...) for one query description"""
     a = qd["arg"]
-    pos = tuple(a["pos"]) if "pos" in a and a["kind"] != "mat" else (1.0, 2.0, 3.0)
-    rot = _rot_arg(a["q"], a["rot_form"]) if a["kind"] == "pose" else (1.0, 0.0, 0.0, 0.0)
+    num = a.get("num", "float")
+    pos = _seq_arg(a["pos"], a.get("pform", "tuple"), num) if "pos" in a and a["kind"] != "mat" else (1.0, 2.0, 3.0)
+    rot = _rot_arg(a["q"], a["rot_form"], num) if a["kind"] == "pose" else (1.0, 0.0, 0.0, 0.0)
     mat = None
     if a["kind"] == "mat":
         try:
@@ -733,6 +866,140 @@ def _answer(td, qd, mats):
         return _call_transform(td, key, a["kind"], pos, rot, mat, qd["call"])
 
     return _try(run)
+
+
+# ----------------------------------------------------------------------------- every access path of the registry
+
+# A registry is asked not only through `transform`: every public method that takes a key must read it the same way
+# (TransformKey / pair / list; member, lower-, upper-, mixed-case name).  The paths are ENUMERATED FROM THE CLASS, so a
+# newly added one is picked up: known lookups have a rule (below); known methods without a key argument and the
+# modifying ones that the operation sequences already drive are listed; anything else is tried generically with the key
+# as its only argument, on a deep copy, and must treat every spelling like the canonical TransformKey(member, member).
+LOOKUP_RULES = ("get", "__getitem__", "__contains__", "load_key")
+_NO_KEY_PATHS = {"keys", "items", "values", "__iter__", "__len__", "__repr__", "__str__", "__bool__", "copy", "__copy__", "__deepcopy__",
+                 "__reduce__", "__reduce_ex__", "__getstate__", "__setstate__", "__eq__", "__ne__", "__hash__", "__init__",
+                 "__init_subclass__", "__class_getitem__", "__sizeof__", "__reversed__", "clear", "popitem", "update"}
+_DRIVEN_ELSEWHERE = {"transform", "__setitem__", "__delitem__"}  # queries and the set / del operations of the sequences
+_PATHS = None
+
+
+def _registry_paths():
+    """(lookups with a rule, unknown key-taking candidates) among the public callables of TransformDict"""
+    global _PATHS
+    if _PATHS is None:
+        from perception_eval.common.transform import TransformDict
+
+        base = set(dir(object))
+        known, generic = [], []
+        for n in dir(TransformDict):
+            if n in base or n.startswith("_TransformDict__") or not callable(getattr(TransformDict, n, None)):
+                continue
+            if n in LOOKUP_RULES:
+                known.append(n)
+            elif n not in _NO_KEY_PATHS and n not in _DRIVEN_ELSEWHERE:
+                generic.append(n)
+        _PATHS = (known, generic)
+    return _PATHS
+
+
+def _canon_look(r):
+    from perception_eval.common.transform import HomogeneousMatrix, TransformKey
+
+    if isinstance(r, HomogeneousMatrix):
+        return _hm(r)
+    if r is None:
+        return {"none": True}
+    if isinstance(r, bool):
+        return {"bool": r}
+    if isinstance(r, TransformKey):
+        return {"key": [_fname(r.src), _fname(r.dst)]}
+    try:
+        return _canon_result(r)
+    except Exception:  # noqa
+        return {"other": repr(r)[:80]}
+
+
+def _look_call(reg, name, key):
+    if name == "get":
+        return reg.get(key)
+    if name == "__getitem__":
+        return reg[key]
+    if name == "__contains__":
+        return key in reg
+    if name == "load_key":
+        from perception_eval.common.transform import TransformKey
+
+        return reg.load_key(key.src, key.dst) if isinstance(key, TransformKey) else reg.load_key(*key)
+    return getattr(reg, name)(key)
+
+
+def _lookups(reg, qd):
+    """the answers of every lookup path to one key description: {path: canonical answer}"""
+    import copy
+
+    known, generic = _registry_paths()
+    out = {}
+    for name in known:
+        def run(name=name):
+            return _look_call(reg, name, _mk_key(qd["src"], qd["src_sp"], qd["dst"], qd["dst_sp"], qd["form"]))
+        try:
+            out[name] = _canon_look(run())
+        except Exception as e:  # noqa
+            out[name] = {"err": type(e).__name__}
+    for name in generic:  # unknown method: the spelled key on one deep copy, the canonical key on another
+        res = []
+        for canonical in (False, True):
+            r2 = copy.deepcopy(reg)
+            try:
+                if canonical:
+                    key = _mk_key(qd["src"], "member", qd["dst"], "member", "key")
+                else:
+                    key = _mk_key(qd["src"], qd["src_sp"], qd["dst"], qd["dst_sp"], qd["form"])
+                ans = _canon_look(getattr(r2, name)(key))
+            except Exception as e:  # noqa
+                ans = {"err": type(e).__name__}
+            try:
+                after = sorted([_fname(k.src), _fname(k.dst)] for k in r2.keys())
+            except Exception:  # noqa
+                after = None
+            res.append({"ans": ans, "keys_after": after})
+        out["?" + name] = {"spelled": res[0], "canonical": res[1]}
+    return out
+
+
+def _check_lookups(qd, look, table):
+    """every access path reads the key like `transform` does: the frame names are normalised, then the registered matrix
+    (or its absence) is reported the way the path reports it"""
+    s, t = _norm_name(qd["src"], qd["src_sp"]), _norm_name(qd["dst"], qd["dst_sp"])
+    where = f"key ({qd['src']}:{qd['src_sp']}, {qd['dst']}:{qd['dst_sp']}) given as {qd['form']}"
+    for name, ans in look.items():
+        if name.startswith("?"):
+            if s is None or t is None:
+                continue
+            if ans["canonical"]["ans"].get("err") == "TypeError":
+                continue  # not a method of one key argument
+            if ans["spelled"] != ans["canonical"]:
+                return (f"{name[1:]}({where}) = {_short(ans['spelled'])} but with TransformKey(member, member) "
+                        f"{_short(ans['canonical'])}")
+            continue
+        if s is None or t is None:  # a name that is no frame: never a positive answer
+            if "mat" in ans or ans.get("bool") is True or "key" in ans:
+                return f"{name}({where}) answered {_short(ans)} for a name that is no frame"
+            continue
+        M = table.get((s, t))
+        if name == "load_key":
+            if ans.get("key") != [s, t]:
+                return f"load_key({where}) = {_short(ans)}, expected the key {s}->{t}"
+        elif name == "__contains__":
+            if ans.get("bool") is not (M is not None):
+                return f"{where} in registry = {_short(ans)}, but {s}->{t} is {'registered' if M is not None else 'not registered'}"
+        elif M is None:
+            want = {"none": True} if name == "get" else {"err": "KeyError"}
+            if ans != want:
+                return f"{name}({where}) = {_short(ans)}, but {s}->{t} is not registered: expected {want}"
+        elif "mat" not in ans or not _close_list(ans["mat"], M) or (ans["src"], ans["dst"]) != (s, t):
+            return f"{name}({where}) = {_short(ans)}, but {s}->{t} is registered with matrix {M.tolist()}"
+    return None
 
 
 # ----------------------------------------------------------------------------- operation sequences on one registry
@@ -783,7 +1050,8 @@ def _run_regseq(case, mats):
         if ref["cont"] != cont:
             fresh = TransformDict([_build(sp) for sp in cont.values()])
             ref["cont"], ref["answers"] = cont, [_answer(fresh, qd, mats) for qd in probes]
-        return {"res": res, "probes": [_answer(reg, qd, mats) for qd in probes], "fresh": ref["answers"], "len": len(reg)}
+        return {"res": res, "probes": [_answer(reg, qd, mats) for qd in probes], "fresh": ref["answers"], "len": len(reg),
+                "look": [_lookups(reg, qd) for qd in probes]}
 
     steps = [observe(td, contents[0], None)]
     olds = []
@@ -832,7 +1100,10 @@ def _run_alias(case):
     bufs = {}
     # ---- the caller's arrays and the transform made from them
     if b["how"] == "ctor":
+        # the caller's position buffer in the numeric type of the spec (when the new position is representable in it too)
         bufs["pos"] = np.array(spec["pos"], dtype=float)
+        if mut["what"] not in ("pos", "both") or _num_scalars(mut["pos"], spec.get("num", "float")) is not None:
+            bufs["pos"] = _num_array(bufs["pos"], spec.get("num", "float"))
         rf = b["rot_form"]
         if rf == "quat_array":
             bufs["rot"] = np.array([float(_F(c)) for c in spec["q"]])
@@ -854,8 +1125,7 @@ def _run_alias(case):
         pos_view = bufs["stack"][1][:3, 3]
     B, C = _build(case["post"]), _build(case["pre"])
     written = {k: v.copy() for k, v in bufs.items()}
-    p = tuple(probe["pos"])
-    r = _rot_arg(probe["q"], probe["rot_form"])
+    p, r = _probe_args(probe)
 
     def observe():
         d = _info(A, probe)
@@ -881,9 +1151,9 @@ def _run_alias(case):
     if mut["what"] in ("pos", "both"):
         new = np.array(mut["pos"], dtype=float)
         if mut["how"] == "iadd":
-            pos_view += new - np.array(spec["pos"], dtype=float)
+            pos_view += (new - np.array(spec["pos"], dtype=float)).astype(pos_view.dtype)
         elif mut["how"] == "zero":
-            pos_view *= 0.0
+            pos_view *= 0
         else:
             pos_view[:] = new
     if mut["what"] in ("rot", "both"):
@@ -914,8 +1184,7 @@ def run_impl(case):
         probe = case["probe"]
         out = {"mats": [_info(A, probe) for A in mats], "comps": []}
         # step-by-step transformation of the probe (oracle material)
-        p = tuple(probe["pos"])
-        r = _rot_arg(probe["q"], probe["rot_form"])
+        p, r = _probe_args(probe)
         steps = []
         cur = (p, r)
         try:
@@ -945,7 +1214,7 @@ def run_impl(case):
         except Exception as e:  # noqa
             return {"err": type(e).__name__, "at": -1}
         answers = [_answer(td, qd, mats) for qd in case["queries"]]
-        return {"answers": answers, "len": len(td)}
+        return {"answers": answers, "len": len(td), "look": [_lookups(td, qd) for qd in case["queries"]]}
     if case["kind"] == "regseq":
         return _run_regseq(case, mats)
     raise ValueError(case["kind"])
@@ -1020,9 +1289,9 @@ def model_requests(case, out):
             else:
                 ops.append({"op": "query", **_model_query(op), "arg": _model_targ(op["arg"])})
         return [{"op": "regseq", "mats": mats, "ops": ops, "probes": [_model_query(pq) for pq in case["probes"]],
-                 "parg": _model_targ(case["parg"])}]
+                 "parg": _model_targ(case["parg"]), "paths": _registry_paths()[0]}]
     qs = [dict(_model_query(qd), arg=_model_targ(qd["arg"])) for qd in case["queries"]]
-    return [{"op": "registry", "mats": mats, "queries": qs}]
+    return [{"op": "registry", "mats": mats, "queries": qs, "paths": _registry_paths()[0]}]
 
 
 def _num_eq(a, b):
@@ -1108,6 +1377,8 @@ def _check_info(tag, d, M, src, dst, probe_pose, G):
     """group laws for one real matrix whose intended 4x4 matrix is M (numpy), labelled src->dst"""
     import numpy as np
 
+    if "inv_err" in d:
+        return f"{tag}.inv() raised {d['inv_err']} (.matrix = {d['m']['mat']}, expected {M.tolist()})"
     m, inv = d["m"], d["inv"]
     if (m["src"], m["dst"]) != (src, dst):
         return f"{tag}: labelled {m['src']}->{m['dst']}, expected {src}->{dst}"
@@ -1194,6 +1465,10 @@ def oracle(case, out):
         f = _check_query(qd, ans, table)
         if f:
             return f
+    for qd, look in zip(case["queries"], out.get("look", [])):
+        f = _check_lookups(qd, look, table)
+        if f:
+            return f"registered: {sorted(table)}: {f}"
     return None
 
 
@@ -1272,6 +1547,10 @@ def _oracle_regseq(case, out):
         table = {k: _spec_matrix(sp) for k, sp in cont.items()}
         if obs.get("len") != len(table):
             return f"{when}: registry holds {obs.get('len')} entries, {len(table)} keys are registered"
+        for qd, look in zip(probes, obs.get("look", [])):
+            f = _check_lookups(qd, look, table)
+            if f:
+                return f"{when} (registered now: {sorted(table)}): {f}"
         for qd, ans, fresh in zip(probes, obs["probes"], obs["fresh"]):
             f = _check_query(qd, ans, table)
             if f:
@@ -1364,6 +1643,16 @@ def _oracle_alias(case, out):
 
 # ----------------------------------------------------------------------------- bookkeeping
 
+def _num_applied(spec):
+    """the numeric type the numbers of a spec / probe / argument were really handed over in: position[+rotation]"""
+    num = spec.get("num", "float")
+    if num == "float":
+        return "float"
+    pos_ok = _num_scalars(spec["pos"], num) is not None
+    rot_ok = "q" in spec and _num_scalars([float(_F(c)) for c in spec["q"]], num) is not None
+    return f"{num}:" + ("pos+rot" if pos_ok and rot_ok else "pos" if pos_ok else "rot" if rot_ok else "not-representable")
+
+
 def _is_identity(spec):
     return all(c == 0 for c in spec["pos"]) and [abs(_F(c)) for c in spec["q"]] == [1, 0, 0, 0]
 
@@ -1422,7 +1711,7 @@ def _branches_regseq(case, out):
                 r = _rule(_norm_name(op["src"], op["src_sp"]), _norm_name(op["dst"], op["dst_sp"]), keys)
                 br.append(f"seq:query:{r}:{op['arg']['kind']}:{res.get('err') or res.get('arg_err') or 'ok'}")
         for pq, ans in zip(case["probes"], obs["probes"]):
-            r = _rule(pq["src"], pq["dst"], keys)
+            r = _rule(_norm_name(pq["src"], pq["src_sp"]), _norm_name(pq["dst"], pq["dst_sp"]), keys)
             br.append(f"seq:probe:{r}:{ans.get('err', 'ok')}")
             if r == "inverse":
                 asked_inverse.add((pq["src"], pq["dst"]))
@@ -1460,12 +1749,14 @@ def branches(case, out):
         return [f"{k}:construct-err:{out['err']}"]
     for s in case["mats"]:
         br.append(f"input:{s['input']}")
+        br.append(f"num:matrix:{_num_applied(s)}")
         first = next(c for c in (_F(c) for c in s["q"]) if c != 0)
         br.append("qsign:" + ("neg" if first < 0 else "pos"))
         br.append(f"frame-spelling:{s['src_sp']}")
         if _F(s["q"][0]) == 0:
             br.append("rotation:half-turn")
     if k == "chain":
+        br.append(f"num:probe:{_num_applied(case['probe'])}:{case['probe'].get('pform', 'tuple')}")
         br.append(f"chain:n={len(case['mats'])}")
         br.append(f"probe:{case['probe']['rot_form']}:{case['probe']['call']}")
         for v, c in zip(case["via"], out["comps"]):
@@ -1481,7 +1772,8 @@ def branches(case, out):
         br.append("registry:duplicate-key")
     if any((b, a) in keys for a, b in keys if a != b):
         br.append("registry:both-directions")
-    for qd, ans in zip(case["queries"], out["answers"]):
+    looks = out.get("look") or [{}] * len(case["queries"])
+    for qi, (qd, ans) in enumerate(zip(case["queries"], out["answers"])):
         s, t = _norm_name(qd["src"], qd["src_sp"]), _norm_name(qd["dst"], qd["dst_sp"])
         if s is None or t is None:
             rule = "bad-name"
@@ -1495,6 +1787,11 @@ def branches(case, out):
             rule = "missing"
         res = ans.get("err") or ans.get("arg_err") or "ok"
         br.append(f"query:{rule}:{qd['arg']['kind']}:{res}")
+        if "pos" in qd["arg"] and qd["arg"]["kind"] != "mat":
+            br.append(f"num:query-arg:{_num_applied(qd['arg'])}")
+        for name, ans in looks[qi].items():
+            br.append(f"path:{name}:{rule}:" + ("err:" + ans["err"] if "err" in ans else "matrix" if "mat" in ans else "none" if "none" in ans
+                                               else "key" if "key" in ans else str(ans.get("bool", "generic"))))
         br.append(f"key-form:{qd['form']}")
         br.append(f"key-spelling:{qd['src_sp']}/{qd['dst_sp']}")
         br.append(f"call:{qd['call']}")
@@ -1521,12 +1818,14 @@ def _shrink_new(case):
         if case["init"] not in ("list", "none"):
             c = copy.deepcopy(case); c["init"] = "list"; yield c
         if case["parg"]["kind"] == "pose":
-            c = copy.deepcopy(case); c["parg"] = {"kind": "pos", "pos": case["parg"]["pos"]}; yield c
+            c = copy.deepcopy(case); c["parg"] = dict({k: v for k, v in case["parg"].items() if k not in ("q", "rot_form")}, kind="pos"); yield c
+        if case["parg"].get("num", "float") != "float":
+            c = copy.deepcopy(case); c["parg"]["num"] = "float"; yield c
         specs = [("mats", i) for i in range(len(case["mats"]))] + [("ops", i) for i, op in enumerate(case["ops"]) if op["op"] == "set"]
         for where, i in specs:
             sp = case[where][i] if where == "mats" else case[where][i]["mat"]
-            for key, val in (("q", one), ("input", "tuple"), ("src_sp", "member"), ("dst_sp", "member")):
-                if sp[key] != val:
+            for key, val in (("q", one), ("input", "tuple"), ("num", "float"), ("src_sp", "member"), ("dst_sp", "member")):
+                if sp.get(key, val) != val:
                     c = copy.deepcopy(case)
                     (c[where][i] if where == "mats" else c[where][i]["mat"])[key] = val
                     yield c
@@ -1538,16 +1837,16 @@ def _shrink_new(case):
         return
     # alias
     for name in ("mat", "post", "pre"):
-        for key, val in (("q", one), ("pos", [0.0, 0.0, 0.0]), ("src_sp", "member"), ("dst_sp", "member")):
-            if case[name][key] != val and not (name == "mat" and key == "pos" and case["mut"]["how"] == "zero"):
+        for key, val in (("q", one), ("pos", [0.0, 0.0, 0.0]), ("num", "float"), ("src_sp", "member"), ("dst_sp", "member")):
+            if case[name].get(key, val) != val and not (name == "mat" and key == "pos" and case["mut"]["how"] == "zero"):
                 c = copy.deepcopy(case); c[name][key] = val; yield c
     if case["mut"]["what"] == "both":
         for w in ("pos", "rot"):
             c = copy.deepcopy(case); c["mut"]["what"] = w; yield c
     if case["mut"]["how"] != "assign" and case["mut"]["what"] != "rot":
         c = copy.deepcopy(case); c["mut"]["how"] = "assign"; yield c
-    for key, val in (("q", one), ("pos", [1.0, 0.0, 0.0]), ("rot_form", "tuple"), ("call", "args")):
-        if case["probe"][key] != val:
+    for key, val in (("q", one), ("pos", [1.0, 0.0, 0.0]), ("rot_form", "tuple"), ("call", "args"), ("num", "float"), ("pform", "tuple")):
+        if case["probe"].get(key, val) != val:
             c = copy.deepcopy(case); c["probe"][key] = val; yield c
 
 
@@ -1564,11 +1863,11 @@ def shrink(case):
             c = copy.deepcopy(case); c["mats"] = c["mats"][:-1]; c["via"] = c["via"][: n - 2]; yield c
             c = copy.deepcopy(case); c["mats"] = c["mats"][1:]; c["via"] = c["via"][1:]; yield c
         for i in range(n):
-            for key, val in (("q", one), ("pos", [0.0, 0.0, 0.0]), ("input", "tuple"), ("src_sp", "member"), ("dst_sp", "member")):
-                if case["mats"][i][key] != val:
+            for key, val in (("q", one), ("pos", [0.0, 0.0, 0.0]), ("input", "tuple"), ("num", "float"), ("src_sp", "member"), ("dst_sp", "member")):
+                if case["mats"][i].get(key, val) != val:
                     c = copy.deepcopy(case); c["mats"][i][key] = val; yield c
-        for key, val in (("q", one), ("pos", [1.0, 0.0, 0.0]), ("rot_form", "tuple"), ("call", "args")):
-            if case["probe"][key] != val:
+        for key, val in (("q", one), ("pos", [1.0, 0.0, 0.0]), ("rot_form", "tuple"), ("call", "args"), ("num", "float"), ("pform", "tuple")):
+            if case["probe"].get(key, val) != val:
                 c = copy.deepcopy(case); c["probe"][key] = val; yield c
         for i, v in enumerate(case["via"]):
             if v != "dot":
@@ -1583,8 +1882,8 @@ def shrink(case):
             c["init"] = "list"
         yield c
     for i in range(len(case["mats"])):
-        for key, val in (("q", one), ("pos", [0.0, 0.0, 0.0]), ("input", "tuple"), ("src_sp", "member"), ("dst_sp", "member")):
-            if case["mats"][i][key] != val:
+        for key, val in (("q", one), ("pos", [0.0, 0.0, 0.0]), ("input", "tuple"), ("num", "float"), ("src_sp", "member"), ("dst_sp", "member")):
+            if case["mats"][i].get(key, val) != val:
                 c = copy.deepcopy(case); c["mats"][i][key] = val; yield c
     if case["init"] not in ("list", "none"):
         c = copy.deepcopy(case); c["init"] = "list"; yield c
@@ -1596,7 +1895,10 @@ def shrink(case):
         if a["kind"] in ("pose", "mat") and a.get("q") != one:
             c = copy.deepcopy(case); c["queries"][i]["arg"]["q"] = one; yield c
         if a["kind"] == "pose":
-            c = copy.deepcopy(case); c["queries"][i]["arg"] = {"kind": "pos", "pos": a["pos"]}; yield c
+            c = copy.deepcopy(case); c["queries"][i]["arg"] = {k: v for k, v in a.items() if k not in ("q", "rot_form")}
+            c["queries"][i]["arg"]["kind"] = "pos"; yield c
+        if a.get("num", "float") != "float":
+            c = copy.deepcopy(case); c["queries"][i]["arg"]["num"] = "float"; yield c
 
 
 def search(rng, st, disagreements):
